@@ -8,6 +8,7 @@ ALLOWED = {"ParserError": True, "ConverterError": True, "XmlContextError": True,
 
 def register(db):
     collab.declare(db)
+    register_wild(db)
     P = ["C15"]
     assume_method(db, "NodeParserObj", "start", raises=["ParserError", "ConverterError", "XmlContextError"])
     assume_method(db, "NodeParserObj", "end", returns="bool", raises=["ParserError", "ConverterError", "XmlContextError"])
@@ -53,4 +54,26 @@ def register(db):
             ("with-a-copy-of-the-element-attributes", "call_arg('PyList.append', 0)[2] == uf('copy.deepcopy', 'u:PyDict', attrs)"),
         ],
         raises={}, properties=["C09", "C15"],
+    ))
+
+
+def register_wild(db):
+    from .c10_strictness import element_node
+
+    EL = f"{NODES}.element:ElementNode"
+    assume_method(db, "Any", "append", mutates=True)
+    collab.field(db, "Any", "children", "u:PyList")
+    assume_method(db, "type", "__call__", returns="u:Any")
+    db.add(Contract(f"{EL}.prepare_generic_value", trusted=True, params={}, returns="u:Any", raises={"ConverterError": True},
+                    note="assumed: wraps primitives into a generic element"))
+    db.add(Contract("xsdata.formats.dataclass.parsers.utils:PendingCollection.__init__", trusted=True, params={}, raises={}))
+    db.add(Contract(
+        f"{EL}.bind_wild_var",
+        params={"self": element_node, "params": "opaque:PyDict", "var": "opaque:XmlVar", "qname": "str", "value": "opaque:Any"},
+        # AnyElement (the generic element class of the class type) declares a qname field
+        hints=["forall('u:Any', lambda x: implies(uf('isinstance_dyn_Any_type', 'bool', x, self.context.class_type.any_element), uf('hasattr_qname', 'bool', x)))"],
+        ensures=[("wildcards-absorb-any-value", "result == True")],
+        raises={"ConverterError": True, "KeyError": True},
+        properties=["C15", "C11"],
+        note="KeyError is an artefact of the abstract params dict (the read is guarded by a membership test)",
     ))
